@@ -99,6 +99,54 @@ static void check_ulabel(const char *pre, int row) {
     if (rc != exp) mc_violation("ulabel", "6531:u-label-class", "", "mode=6531", d, n, "U-label spelling: expected %d (class of '%s'), library rc %d", exp, RT_PUNY.row[row].domain, rc);
 }
 
+/* mode 6531 with a spelling that only IDNA mapping turns into the name (alternative dots, fullwidth letters, soft hyphens, long s):
+ * the class must be that of the converted name (conversion done independently by the harness) */
+static int C_MAPPED;
+static void check_class_u(const char *sub, const char *u) {
+    size_t n = strlen(u); if (n == 0 || n > 900) return;
+    char *a = NULL; int cr = idn2_to_ascii_8z(u, &a, IDN2_NONTRANSITIONAL);
+    if (cr != IDN2_OK || !a) { if (a) free(a); return; }
+    size_t an = strlen(a);
+    if (an == 0 || a[an - 1] == '.' || ref_domain((const unsigned char *)a, an, 0) != R_ACC) { free(a); return; }
+    int exp = expected_class(a, an);
+    char buf[1000]; int bn = snprintf(buf, sizeof buf, "x@%s", u);
+    mc_current(sub, "mode=6531", u, n);
+    eav_result_t *r = is_6531_email(buf, (size_t)bn, true); int rc = r->rc; eav_result_free(r);
+    MC_ADD(C_EVAL, 1); MC_ADD(C_MAPPED, 1);
+    if (rc != exp) { char w[80]; snprintf(w, sizeof w, "6531:mapped-spelling:%s", exp == TLD_TYPE_SPECIAL ? "reserved-not-special" : rc == TLD_TYPE_SPECIAL ? "non-reserved-special" : "wrong-class");
+        mc_violation(sub, w, "", "mode=6531", u, n, "converted name '%s' has class %d, library rc %d for the mapped spelling", a, exp, rc); }
+    free(a);
+}
+static void fullwidth(const char *in, char *out) { int l = 0; for (; *in; in++) { if (*in >= 'a' && *in <= 'z') { out[l++] = (char)0xef; out[l++] = (char)0xbd; out[l++] = (char)(0x81 + (*in - 'a')); } else out[l++] = *in; } out[l] = 0; }
+static void mapped_variants(const char *sub, const char *name) {
+    static const char *const DOT[4] = { ".", "\xe3\x80\x82", "\xef\xbc\x8e", "\xef\xbd\xa1" };
+    static const char *const PRE[4] = { "mail", "abcdefg", "\xd0\xb6", "a.b" };
+    char fw[300], shy[300], up[300], d[900];
+    fullwidth(name, fw);
+    { int l = 0; size_t nl = strlen(name); for (size_t i = 0; i < nl; i++) { shy[l++] = name[i]; if (i == nl / 2) { shy[l++] = (char)0xc2; shy[l++] = (char)0xad; } } shy[l] = 0; }
+    { int l = 0; for (const char *q = name; *q; q++) up[l++] = (char)toupper((unsigned char)*q); up[l] = 0; }
+    const char *sp[4] = { name, fw, shy, up };
+    for (int v = 0; v < 4; v++) for (int p = 0; p < 4; p++) for (int d1 = 0; d1 < 4; d1++) {
+        /* inner dots of the name (example.com) spelled with the same alternative dot */
+        char nm[400]; int m = 0; for (const char *q = sp[v]; *q; q++) { if (*q == '.') { strcpy(nm + m, DOT[d1]); m += (int)strlen(DOT[d1]); } else nm[m++] = *q; } nm[m] = 0;
+        snprintf(d, sizeof d, "%s%s%s", PRE[p], DOT[d1], nm); check_class_u(sub, d);
+        if (p == 0) check_class_u(sub, nm);
+    }
+}
+
+/* a reserved label extended by 1-3 characters at either end is an ordinary (unlisted) label; a two-character extension passes length
+ * pre-filters that a one-character one does not */
+static void reserved_extensions(const char *suf) {
+    static const char EXT[] = "aly1-x"; static const char *const PX[] = { "", "m.", "abcdefg.", "a.b." }; char d2[200];
+    if (strchr(suf, '.')) return;
+    for (int a = 0; a < 6; a++) for (int b = -1; b < 6; b++) for (int c = -1; c < (b < 0 ? 0 : 6); c++) for (int k = 0; k < 4; k++) {
+        char e[8]; int l = 0; e[l++] = EXT[a]; if (b >= 0) e[l++] = EXT[b]; if (c >= 0) e[l++] = EXT[c]; e[l] = 0;
+        snprintf(d2, sizeof d2, "%s%s%s", PX[k], suf, e); check_class("extension", d2, strlen(d2));
+        snprintf(d2, sizeof d2, "%s%s%s", PX[k], e, suf); check_class("extension", d2, strlen(d2));
+        for (char *q = d2; *q; q++) *q = (char)toupper((unsigned char)*q); check_class("extension", d2, strlen(d2));
+    }
+}
+
 #ifndef C09
 /* ------------------------------- C07 generators ------------------------------- */
 static char L63[64];
@@ -140,6 +188,7 @@ static void rows_shard(long shard, void *arg) {
         }
         for (size_t p = 0; p <= n; p++) for (const char *a = AL; *a; a++) { memcpy(x, t, p); x[p] = *a; memcpy(x + p + 1, t + p, n - p); check_class("near-insertion", d, pl + n + 1); }
     }
+    mapped_variants("mapped-row", t);
     /* U-label spelling in mode 6531 */
     check_ulabel("a.", (int)shard); check_ulabel("", (int)shard); check_ulabel("abcdefg.xn--p1ai.", (int)shard);
     /* long non-ASCII labels in front: the UTF-8 spelling exceeds 255 bytes, the A-label form does not */
@@ -148,6 +197,7 @@ static void rows_shard(long shard, void *arg) {
 }
 static void short_shard(long shard, void *arg) {
     (void)arg; static const char AL[] = "abcdefghijklmnopqrstuvwxyz0123456789"; char d[16] = "a.";
+    { static const char *const R5[5] = { "test", "example", "invalid", "localhost", "onion" }; if (shard < 5) reserved_extensions(R5[shard]); }
     d[2] = AL[shard]; check_class("short", d, 3);
     for (int b = 0; b < 36; b++) {
         d[3] = AL[b]; check_class("short", d, 4);
@@ -207,7 +257,9 @@ static void res_shard(long shard, void *arg) {
 }
 /* one-edit neighbours of each reserved suffix, with 0-2 preceding labels of assorted lengths */
 static void neigh_shard(long shard, void *arg) {
-    (void)arg; const char *suf = RES[shard]; size_t sl = strlen(suf); char v[64], d[300];
+    (void)arg; const char *suf = RES[shard];
+    mapped_variants("mapped-reserved", suf);
+    reserved_extensions(suf); size_t sl = strlen(suf); char v[64], d[300];
     static const char *const PRES[] = { "", "a.", "abcdefg.", "example.", "test.", "a.b.", "abcdefg.abcdefg.", "x.example.", "example.example." };
     static const char INS[] = "a1-.";
     char cand[400][64]; int nc = 0;
@@ -233,7 +285,8 @@ static int do_replay(void) {
         /* find the row by suffix */
         char d[800]; memcpy(d, r.in, (size_t)r.len); d[r.len] = 0;
         for (int i = 0; i < RAW.n; i++) { size_t l = strlen(RAW.row[i].domain); if ((size_t)r.len >= l && !strcmp(d + r.len - l, RAW.row[i].domain)) { d[r.len - (int)l] = 0; check_ulabel(d, i); break; } }
-    } else check_class(r.sub, (char *)r.in, (size_t)r.len);
+    } else if (!strncmp(r.sub, "mapped", 6)) { char d[1000]; memcpy(d, r.in, (size_t)r.len); d[r.len] = 0; check_class_u(r.sub, d); }
+    else check_class(r.sub, (char *)r.in, (size_t)r.len);
     printf("replay %s: %s\n", mc_replay, mc_replay_hit ? "VIOLATION reproduced" : "no violation");
     return mc_replay_hit ? 1 : 0;
 }
@@ -246,7 +299,7 @@ int main(int argc, char **argv) {
 #endif
     C_CASES = mc_counter("domains_classified"); C_SPECIAL = mc_counter("expected_special"); C_LISTED = mc_counter("expected_listed_class");
     C_UNLISTED = mc_counter("expected_invalid_tld"); C_NOTFQDN = mc_counter("expected_not_fqdn"); C_SKIP6531 = mc_counter("mode6531_idn_error_on_ascii_skipped");
-    C_ULABEL = mc_counter("u_label_cases");
+    C_ULABEL = mc_counter("u_label_cases"); C_MAPPED = mc_counter("idna_mapped_spellings");
     if (rt_load()) return 2;
     char p[1024]; snprintf(p, sizeof p, "%s/data/raw.csv", rt_repo()); if (rt_read_csv(p, &RAW, 1)) return 2;
     for (int m = 0; m < 4; m++) {
